@@ -116,34 +116,74 @@ def cmp_atom(c, pol):
 
 def check_truthful(ctx, facts, cfg):
     R = 'C06.b-truthful'
-    sites = []
-
-    def mk_visit(fn):
-        def visit(e, conds, env):
-            if e.get('k') == 'struct' and e.get('adt') == 'Error':
-                sites.append((fn, e, conds, dict(env)))
-        return visit
-    for fn in facts.fns.values():
-        core.PathWalker(mk_visit(fn)).walk_fn(fn)
-    ctx.floor(R, 18, len(sites), 'Error construction sites', cfg=cfg)
-    per_fn_count = {}
     RL = roles_mod.roles(facts)
-    for (fn, e, conds, env) in sites:
+
+    def collect(inline):
+        sites = []
+
+        def mk(fn):
+            def visit(e, conds, env):
+                if e.get('k') == 'struct' and e.get('adt') == 'Error':
+                    sites.append((W.root_fn, W.cur_fn, e, conds, dict(env)))
+            W = core.PathWalker(visit, facts, inline)
+            return W
+        for fn in facts.fns.values():
+            if fn.path in inline:
+                continue          # judged in the context of its callers
+            W = mk(fn)
+            W.walk_fn(fn)
+        return sites
+
+    def judge_site(root, cur, e, conds, env):
         variant = (e['path'].get('path') or '').split('::')[-1]
-        # private field / parameter names of the work objects are mapped to their role names
-        fields = {f['name']: RL.norm(core.inline_calls(hcanon(f['e'], env), facts), fn.path) for f in e['fields']}
-        atoms = inlined_atoms(conds, env, facts, RL, fn.path)
+        fields = {f['name']: RL.norm(core.inline_calls(hcanon(f['e'], env), facts), root.path) for f in e['fields']}
+        atoms = inlined_atoms(conds, env, facts, RL, root.path)
         cmps = [x for x in (cmp_atom(c, p) for c, p in atoms) if x]
-        per_fn_count[(fn.path, variant)] = per_fn_count.get((fn.path, variant), 0) + 1
-        ident = '%s#%s' % (variant, per_fn_count[(fn.path, variant)])
-        err = judge(fn, variant, fields, atoms, cmps, conds, env, RL)
+        return variant, fields, atoms, judge(root, variant, fields, atoms, cmps, conds, env, RL)
+
+    # pass 1: every site judged where it stands
+    sites = collect(set())
+    variants_seen = {(e['path'].get('path') or '').split('::')[-1] for (_, _, e, _, _) in sites}
+    ctx.floor(R, 10, len(variants_seen), 'Error variants constructed somewhere', cfg=cfg)
+    failing_helpers = set()
+    results = []
+    for (root, cur, e, conds, env) in sites:
+        variant, fields, atoms, err = judge_site(root, cur, e, conds, env)
+        results.append((root, cur, e, variant, fields, atoms, err))
+        if err and (not root.reachable or root.kind == 'Closure'):
+            failing_helpers.add(root.path)
+    # pass 2: sites in private helpers / closures / error constructors that cannot be justified on their own are
+    # re-judged in the context of every call site (helper body walked with the caller's conditions and arguments)
+    ctx_results = {}
+    if failing_helpers:
+        for (root, cur, e, conds, env) in collect(failing_helpers):
+            if cur.path in failing_helpers and root.path not in failing_helpers:
+                variant, fields, atoms, err = judge_site(root, cur, e, conds, env)
+                ctx_results.setdefault((cur.path, e.get('line')), []).append((root, variant, fields, atoms, err))
+    per_fn_count = {}
+    for (root, cur, e, variant, fields, atoms, err) in results:
+        per_fn_count[(root.path, variant)] = per_fn_count.get((root.path, variant), 0) + 1
+        ident = '%s#%s' % (variant, per_fn_count[(root.path, variant)])
         shown = {k: hshow(v) for k, v in fields.items()}
+        if err and root.path in failing_helpers:
+            ctxs = ctx_results.get((root.path, e.get('line')), [])
+            if ctxs and all(c[4] is None for c in ctxs):
+                ctx.ok(R, '%s:%s' % (root.path, ident), {'site': e['line'], 'justified_at_call_sites': sorted({c[0].path for c in ctxs})})
+                continue
+            bad = [c for c in ctxs if c[4]]
+            if bad:
+                c = bad[0]
+                err = 'in the context of caller %s: %s' % (c[0].path, c[4])
+                shown = {k: hshow(v) for k, v in c[2].items()}
+                atoms = c[3]
+            elif not ctxs:
+                err = err + ' (helper is never called where this could be justified)'
         if err:
             ctx.violation(R, ident, 'Error::%s built at %s is not truthful: %s (fields %s; governing atoms %s)'
                           % (variant, e['line'], err, shown, [(hshow(c), p) for c, p in atoms][:6]),
-                          site=e['line'], fn=fn.path, cfg=cfg)
+                          site=e['line'], fn=root.path, cfg=cfg)
         else:
-            ctx.ok(R, '%s:%s' % (fn.path, ident), {'site': e['line'], 'fields': shown,
+            ctx.ok(R, '%s:%s' % (root.path, ident), {'site': e['line'], 'fields': shown,
                                                    'governing': [('' if p else 'not ') + hshow(c) for c, p in atoms][-3:]})
 
 
@@ -329,7 +369,16 @@ def leaf_locals(c, out=None):
 
 def is_next_of_param_iter(e, env, fn):
     c = hcanon(e, env)
-    return isinstance(c, tuple) and c[0] == 'call' and str(c[1]).endswith('Iterator::next')
+    if isinstance(c, tuple) and c[0] == 'call' and str(c[1]).endswith('Iterator::next'):
+        return True
+    # a local initialised from an expression whose only non-None leaves are `next()` calls
+    e0 = core.strip_refs(e) if isinstance(e, dict) else None
+    if e0 and e0.get('k') == 'path' and e0.get('res') == 'local':
+        for (st, _) in core.hir_find(fn.hir['value'], lambda n: n.get('k') == 'let' and n.get('pat', {}).get('k') == 'bind' and n['pat'].get('id') == e0.get('id')):
+            init = st.get('init')
+            if init is not None and core.hir_find(init, lambda n: n.get('k') == 'mcall' and (n.get('path') or '').endswith('Iterator::next')):
+                return True
+    return False
 
 
 def both_iterators_empty(conds, env, fn):
